@@ -241,7 +241,7 @@ pub fn random_script(rng: &mut Rng, max_len: usize) -> Vec<Step> {
         // frames that carry the optional Content-Type header, before or after Content-Length
         for st in s.steps.iter_mut() {
             if rng.chance(500) {
-                st.hdr = 1 + rng.below(2) as u8;
+                st.hdr = 1 + rng.below(3) as u8;
             }
         }
     }
